@@ -102,6 +102,9 @@ def lockstep(res, tag, objs, rngs, P, ns, pool, has_sampler=True):
             res.viol('log_v-differs', tag, '%r vs %r' % (vals[0], v))
             return False
     for n in ns:
+        if n == -1:
+            # drain the proposal cache exactly (boundary of the refill logic)
+            n = max(1, len(getattr(objs[0], 'points', [])))
         outs = []
         for j, o in enumerate(objs):
             try:
@@ -162,7 +165,9 @@ def run_case(r):
     res.nontrivial = bool(split_done or cache or res.classes.count(
         'unit_false') or r.get('periodic') or r.get('n_networks', 0) > 0)
     P = bl.probes(built, n=300, seed=r['seed'] % 1000)
-    ns = r.get('ns', [137, 1000, 7])
+    ns = list(r.get('ns', [137, 1000, 7]))
+    if can_update or cls == 'Nautilus':
+        ns = ns + [-1]          # ... and finally drain the cache exactly
     R = reader(cls)
     f = h5py.File('c09-%d.h5' % id(res), 'w', driver='core',
                   backing_store=False)
